@@ -31,7 +31,7 @@ mutual
       (match k with
        | .fixed c => b.length == c
        | .limited s c => b.length ≤ c && (b.length : Int) ≤ sizerMax s all
-       | .dyn s => (b.length : Int) ≤ sizerMax s all
+       | .dyn s sh => (b.length : Int) ≤ sizerMax s all - (sh : Int)
        | .greedy => true
        | _ => false)
     | t, .arr xs =>
@@ -39,7 +39,7 @@ mutual
       (match k with
        | .fixed c => xs.length == c
        | .limited s c => xs.length ≤ c && (xs.length : Int) ≤ sizerMax s all
-       | .dyn s => (xs.length : Int) ≤ sizerMax s all
+       | .dyn s sh => (xs.length : Int) ≤ sizerMax s all - (sh : Int)
        | .greedy => true
        | _ => false) && hasElems t xs
     | .prim p, .int i => (match k with | .plain => true | _ => false) && inRange p i
